@@ -205,6 +205,7 @@ class PathCtx:
     def clock_now(self, I):
         if self.clock is None:
             self.clock = self.fresh_real("clock0")
+            self.add(self.clock.e >= z3.Real("module_load_time"))
         return self.clock
 
     def advance_clock(self, lo=None, hi=None, name="dt"):
@@ -518,6 +519,8 @@ class Explorer:
                 res.error = ("mismatch", str(e))
             except Unsupported as e:
                 res.error = ("unsupported", "%s (at %s)" % (e, ctx.loc))
+                if os.environ.get("PYVC_TRACE"):
+                    res.error = ("unsupported", res.error[1] + "\n" + traceback.format_exc())
             except RecursionError as e:
                 res.error = ("unsupported", "python recursion limit (at %s)" % (ctx.loc,))
             except Exception as e:
